@@ -6,7 +6,8 @@ name = sys.argv[1]
 props = [a for a in sys.argv[2:] if not a.startswith("--")]
 src = f"/tmp/ag_{name}/verif"; dst = "/verif"
 SKIP = {".lake", "__pycache__", "replays", ".git", "evidence", "seeded"}
-NEVER = {"lean/CbiVerif/Metrics.lean", "lean/CbiVerif.lean", "lean/Driver.lean", "MANIFEST.json", "DESIGN.md",
+REMOVED = {l.strip() for l in open("/verif/tools/removed_prototypes.txt") if l.strip()}
+NEVER = REMOVED | {"lean/CbiVerif/Metrics.lean", "lean/CbiVerif.lean", "lean/Driver.lean", "MANIFEST.json", "DESIGN.md",
          "known_findings.json", "harness/core.py", "harness/main.py", "tools/mk_manifest.py", "harness/props/c07.py"}
 n = 0
 for root, dirs, files in os.walk(src):
